@@ -9,5 +9,5 @@ CONSTANTS
   EndSlack = 1
 INIT Init
 NEXT Next
-INVARIANTS Emit
+INVARIANTS MechSummaryOK MechZoomOK Emit
 CHECK_DEADLOCK FALSE
